@@ -256,3 +256,27 @@ Theorem C11_text_reader_grow_refuted :
                 text_reader_grow [] files = [Some [1; 2; 3]; Some [9; 2; 3]]%N.
 Proof. exact text_reader_grow_refuted. Qed.
 Print Assumptions C11_text_reader_grow_refuted.
+
+(* ---- the glob() table function: per-partition path list, emit up to the batch capacity per poll, truncate ---- *)
+Theorem C11_glob_pull_is_rev : forall (A : Type) caps (l : list A),
+  Forall (fun c => 1 <= c) caps -> length l <= length caps -> glob_pull caps l = rev l.
+Proof. exact @glob_pull_is_rev. Qed.
+Print Assumptions C11_glob_pull_is_rev.
+
+Theorem C11_glob_table_function_exact : forall (A : Type) (caps : nat -> list nat) p (paths : list A), 1 <= p ->
+  (forall k, k < p -> Forall (fun c => 1 <= c) (caps k) /\ length (deal p k paths) <= length (caps k)) ->
+  Permutation (glob_multi caps p paths) paths.
+Proof. exact @glob_table_function_exact. Qed.
+Print Assumptions C11_glob_table_function_exact.
+
+Theorem C11_glob_pull_hyps_sat :
+  glob_pull [2; 2; 2] [1; 2; 3; 4; 5] = [5; 4; 3; 2; 1] /\ Forall (fun c => 1 <= c) [2; 2; 2].
+Proof. exact glob_pull_hyps_sat. Qed.
+Print Assumptions C11_glob_pull_hyps_sat.
+
+Theorem C11_glob_pull_norev_refuted :
+  exists caps (l : list nat), Forall (fun c => 1 <= c) caps /\ length l <= length caps /\
+    glob_pull_norev caps l = [1; 2; 1; 2; 1] /\ length (glob_pull_norev caps l) = length l /\
+    ~ Permutation (glob_pull_norev caps l) l.
+Proof. exact glob_pull_norev_refuted. Qed.
+Print Assumptions C11_glob_pull_norev_refuted.
